@@ -129,6 +129,65 @@ def check_c03(tier):
     return run_e1("C03", tier, stages, dict(undo_probe=True), time_budget=budget(tier, 100, 1500))
 
 
+STRUCT_KINDS = ("del_node", "del_edge", "add_edge", "add_node", "swap")
+
+
+def struct_stages(tier, seg_depth_q=1, seg_depth_t=2, extra_kinds=()):
+    q = tier == "quick"
+    kinds = STRUCT_KINDS + tuple(extra_kinds)
+    return [
+        dict(name="noseg-bfs", worlds=["noseg-2d"], seeds=HAND_SEEDS, depth=2 if q else 3, kinds=kinds),
+        dict(name="noseg-given-bfs", worlds=["noseg-2d-given"], seeds=["div", "two", "desc"], depth=2 if q else 3, kinds=kinds),
+        dict(name="forests", worlds=["noseg-2d-given"], seeds=forests_seeds(4 if q else 5, 3 if q else 4), depth=1, kinds=kinds),
+        dict(name="seg-bfs", worlds=["seg-2d"] if q else ["seg-2d", "seg-3d"], seeds=HAND_SEEDS,
+             depth=seg_depth_q if q else seg_depth_t, kinds=kinds + ("paint",)),
+    ]
+
+
+def check_c04(tier):
+    return run_e1("C04", tier, struct_stages(tier), dict(undo_probe=True), time_budget=budget(tier, 100, 1500))
+
+
+def check_c05(tier):
+    return run_e1("C05", tier, struct_stages(tier), dict(undo_probe=True), time_budget=budget(tier, 100, 1500))
+
+
+def check_c06(tier):
+    return run_e1("C06", tier, struct_stages(tier), dict(undo_probe=True), time_budget=budget(tier, 100, 1500))
+
+
+def check_c11(tier):
+    q = tier == "quick"
+    stages = struct_stages(tier, extra_kinds=("set_attr",))
+    stages.append(dict(name="noseg-axes", worlds=["noseg-2d-axes", "noseg-3d"], seeds=HAND_SEEDS, depth=1 if q else 2,
+                       kinds=STRUCT_KINDS + ("set_attr",)))
+    return run_e1("C11", tier, stages, dict(undo_probe=False), time_budget=budget(tier, 100, 1500))
+
+
+def check_c20(tier):
+    return run_e1("C20", tier, struct_stages(tier, extra_kinds=("set_attr",)), dict(undo_probe=True),
+                  time_budget=budget(tier, 100, 1500))
+
+
+def check_c01(tier):
+    q = tier == "quick"
+    kinds = STRUCT_KINDS + ("set_attr",)
+    stages = [
+        dict(name="noseg-bfs", worlds=["noseg-2d", "noseg-2d-given"], seeds=HAND_SEEDS, depth=2 if q else 3, kinds=kinds),
+        dict(name="noseg-configs", worlds=["noseg-2d-axes", "noseg-3d", "noseg-2d-fd"], seeds=HAND_SEEDS, depth=1 if q else 2, kinds=kinds),
+        dict(name="forests", worlds=["noseg-2d"], seeds=forests_seeds(4 if q else 5, 3 if q else 4), depth=1, kinds=kinds),
+        dict(name="seg-bfs", worlds=["seg-2d", "seg-2d-aniso"] if q else ["seg-2d", "seg-2d-aniso", "seg-2d-all", "seg-3d", "seg-3d-aniso", "seg-2d-fd"],
+             seeds=HAND_SEEDS, depth=1 if q else 2, kinds=kinds + ("paint",)),
+    ]
+    return run_e1("C01", tier, stages, dict(undo_probe=True), time_budget=budget(tier, 100, 1500))
+
+
 CHECKS = {
+    "C01": check_c01,
     "C03": check_c03,
+    "C04": check_c04,
+    "C05": check_c05,
+    "C06": check_c06,
+    "C11": check_c11,
+    "C20": check_c20,
 }
